@@ -8,6 +8,7 @@ from cxxheaderparser.simple import parse_string
 from cxxheaderparser.tokfmt import Token
 from cxxheaderparser import types as T
 
+TECHNIQUE = 'Lean 4: contiguity theorems for the value collectors (result = given tokens ++ exactly the tokens taken from the stream, in order; stream left right after them) for every state, kernel-decided slicing flags regenerated from the call sites; stop positions decided by correspondence and an expression-grammar oracle per position'
 LEAN_TARGET = "CxxModel.Props.C14"
 THEOREMS = ["Cxx.C14_balanced_contiguous", "Cxx.C14_value_until_contiguous", "Cxx.C14_create_value", "Cxx.C14_inner", "Cxx.C14_value_sites", "Cxx.tokLoop_contiguous", "Cxx.interp_bind"]
 ANCHORS = ["parser.py:CxxParser._consume_value_until", "parser.py:CxxParser._consume_balanced_tokens", "parser.py:CxxParser._create_value",
